@@ -1650,7 +1650,14 @@ func (mgr *Manager) convertStreamJob(allConverters []*converters.CachedConverter
 			// The tag could match on the converted data now.
 			for _, tag := range mgr.tags {
 				// TODO: Only tag again if the tag matches converted data
-				if tag.features.MainFeatures&query.FeatureFilterData == 0 && tag.features.SubQueryFeatures&query.FeatureFilterData == 0 {
+				if tag.features.SubQueryFeatures&query.FeatureFilterData != 0 {
+					// a sub-query looks at payload: the new output can change the answer for any stream
+					if !allStreamIDs[i].IsZero() {
+						tag.Uncertain = mgr.allStreams
+					}
+					continue
+				}
+				if tag.features.MainFeatures&query.FeatureFilterData == 0 {
 					continue
 				}
 				tag.Uncertain = tag.Uncertain.Copy()
